@@ -15,7 +15,7 @@ TReset == /\ Cur("Reset") /\ E.acl \in Acls /\ E.cache \in CacheModes
           /\ acl' = E.acl /\ cacheOn' = E.cache /\ cache' = <<>> /\ n' = 0
           /\ last' = [q |-> NoQ, fwd |-> FALSE] /\ hist' = <<>>
 TQuery == /\ Cur("Query")
-          /\ LET q == [shape |-> E.shape, t1 |-> E.t1, t2 |-> E.t2, pos |-> E.pos] IN
+          /\ LET q == [shape |-> E.shape, t1 |-> E.t1, t2 |-> E.t2, pos |-> E.pos, wide |-> E.wide] IN
              q \in Queries /\ Query(q)
           /\ last'.fwd = E.fwd /\ E.same /\ n' = E.i
           /\ (E.fwd => SetOf(E.topics) = TopicsOf(last'.q))
